@@ -18,7 +18,10 @@ SPEC = {
              "at random points); nodes cases: the same interleavings with every call on its own cluster node (real HybridStorage with the "
              "default routing tables: node-local cache + the cache shared by all nodes); each compared token by token with the model and judged by the theorem's predicate. fine cases: every "
              "single storage operation is a scheduling point, order drawn from the seed, judged by the predicate only. non-trivial = more "
-             "than one call or more than two events. uniq cases: the real CreateConnectionCode on a code space of 1-3 codes (shim "
+             "than one call or more than two events. snode cases: all calls through ONE service stack (same node; callers told "
+             "apart by goroutine) with status polls (GetConnectionCode) whose storage read is held between 'performed' and "
+             "'returned' across a complete activation/revocation and into the next one's critical section (140 directed, "
+             "exhaustive 2act / 2act+revoke, random); a call that waits inside the code under test is detected and resumed. uniq cases: the real CreateConnectionCode on a code space of 1-3 codes (shim "
              "VerifSetGenerator), creations interleaved with activations, judged by holdsUniq; distinct = distinct case strings"),
     "trusted_base": [
         "Lean 4.33 kernel; axioms propext, Classical.choice, Quot.sound only (audited per theorem on every run)",
